@@ -2630,6 +2630,89 @@ func ruleVersionIsHighestCommon(c *Ctx, r *Report) {
 	if n == 0 {
 		r.Unk(rule, short(fn), c.pos(fn.Pos()), "no loop over the peer's version list: rule cannot be decided")
 	}
+	// the candidate replaces the version chosen so far only when it is the newer one: DTLS encodes
+	// newer versions as numerically smaller minor bytes, so the comparison between the candidate
+	// (an element of the peer's list) and the chosen value (a loop-carried Version) must be
+	// candidate.Minor < / <= chosen.Minor, directly or through a two-parameter helper
+	nd := 0
+	minorCmp := func(callee *ssa.Function) (op token.Token, firstLeft bool, ok bool) {
+		if callee == nil || len(callee.Params) != 2 {
+			return 0, false, false
+		}
+		for _, b := range callee.Blocks {
+			ret, isRet := b.Instrs[len(b.Instrs)-1].(*ssa.Return)
+			if !isRet || len(ret.Results) != 1 {
+				continue
+			}
+			bo, isB := ret.Results[0].(*ssa.BinOp)
+			if !isB {
+				return 0, false, false
+			}
+			side := func(v ssa.Value) int {
+				_, f, base, okF := fieldLoad(v)
+				if !okF || f != "Minor" {
+					return -1
+				}
+				root := rootValueDeep(base)
+				for i, p := range callee.Params {
+					if root == ssa.Value(p) {
+						return i
+					}
+				}
+				return -1
+			}
+			l, rr := side(bo.X), side(bo.Y)
+			if l < 0 || rr < 0 || l == rr {
+				return 0, false, false
+			}
+			return bo.Op, l == 0, true
+		}
+		return 0, false, false
+	}
+	for _, l := range naturalLoops(fn) {
+		for b := range l.blocks {
+			for _, in := range b.Instrs {
+				cl, ok := in.(*ssa.Call)
+				if !ok || len(cl.Call.Args) != 2 {
+					continue
+				}
+				isChosen := func(v ssa.Value) bool {
+					phi, ok := v.(*ssa.Phi)
+					return ok && phi.Block() == l.header && strings.HasSuffix(namedOrType(phi.Type()), "protocol.Version")
+				}
+				isCand := func(v ssa.Value) bool {
+					for _, leaf := range append(c.Origins(v, 0), v) {
+						if u, ok := leaf.(*ssa.UnOp); ok {
+							if ia, ok := u.X.(*ssa.IndexAddr); ok && ia.X == ssa.Value(peer) {
+								return true
+							}
+						}
+					}
+					return false
+				}
+				var candFirst bool
+				switch {
+				case isCand(cl.Call.Args[0]) && isChosen(cl.Call.Args[1]):
+					candFirst = true
+				case isChosen(cl.Call.Args[0]) && isCand(cl.Call.Args[1]):
+					candFirst = false
+				default:
+					continue
+				}
+				nd++
+				op, firstLeft, ok := minorCmp(cl.Call.StaticCallee())
+				if !ok {
+					r.Unk(rule, short(fn)+":prefers-newer", c.ipos(cl), "the comparison between the candidate and the chosen version is not a comparison of their minor bytes")
+					continue
+				}
+				// normalise to: candidate.Minor OP chosen.Minor
+				candLeft := candFirst == firstLeft
+				newer := (candLeft && (op == token.LSS || op == token.LEQ)) || (!candLeft && (op == token.GTR || op == token.GEQ))
+				r.Check(newer, rule, short(fn)+":prefers-newer", c.ipos(cl), "a candidate replaces the chosen version only when its minor byte is smaller (the newer DTLS version)", "a candidate of the peer's list replaces the version chosen so far when it is the OLDER one (DTLS encodes newer versions as smaller minor bytes): the lowest common version is negotiated")
+			}
+		}
+	}
+	r.Floor(rule+":direction", nd, 1)
 	sites := 0
 	for _, s := range c.CallsToName("internal/config.SelectVersion") {
 		call, ok := s.Call.(*ssa.Call)
